@@ -85,8 +85,11 @@ def normalize_tags(hyps, goal):
     return hyps2, goal2, subs
 
 
-def discharge(ob, axioms, use_cvc5=True, both=False):
-    """Sets ob.verdict in {'proved','refuted','unknown','covered','vacuous'}."""
+def discharge(ob, axioms, use_cvc5=True, both=False, budget_ms=None):
+    """Sets ob.verdict in {'proved','refuted','unknown','covered','vacuous'}.
+    budget_ms: a single short solver budget (no retry), used after a violation of the same function was confirmed."""
+    global _BUDGET
+    _BUDGET = budget_ms
     t0 = time.time()
     orig_hyps, orig_goal = ob.hyps, ob.goal
     g0 = ob.goal if z3.is_expr(ob.goal) else z3.BoolVal(bool(ob.goal))
@@ -155,7 +158,7 @@ def _discharge(ob, axioms, use_cvc5, both, t0):
         # quantified hypotheses: E-matching only (no model-based instantiation). unsat is a proof;
         # saturation without contradiction leaves a *candidate* counter-model that only counts once
         # it has been replayed on the real code.
-        for budget in (min(Z3_TIMEOUT_MS, 15000), 4 * Z3_TIMEOUT_MS):
+        for budget in ((_BUDGET,) if _BUDGET else (min(Z3_TIMEOUT_MS, 15000), 4 * Z3_TIMEOUT_MS)):
             s = _solver(axioms, ob.hyps, budget)
             s.set("smt.mbqi", False)
             s.set("auto_config", False)
@@ -179,7 +182,7 @@ def _discharge(ob, axioms, use_cvc5, both, t0):
                 return ob
             except z3.Z3Exception:
                 pass
-    for budget in (Z3_TIMEOUT_MS, 4 * Z3_TIMEOUT_MS):
+    for budget in ((_BUDGET,) if _BUDGET else (Z3_TIMEOUT_MS, 4 * Z3_TIMEOUT_MS)):
         s = _solver(axioms, ob.hyps, budget)
         s.add(z3.Not(goal))
         r = s.check()
@@ -218,6 +221,9 @@ def _discharge(ob, axioms, use_cvc5, both, t0):
                     ob.backend = "cvc5 (no model)"
     ob.time_s = time.time() - t0
     return ob
+
+
+_BUDGET = None
 
 
 def _timed_out(s):
